@@ -63,7 +63,7 @@ pub fn tick() -> u64 {
     hub().seq.fetch_add(1, Ordering::SeqCst)
 }
 
-fn on_point(name: &'static str, args: &[u64]) {
+pub fn on_point(name: &'static str, args: &[u64]) {
     let h = hub();
     let mut name = name;
     let mut args = args.to_vec();
